@@ -24,5 +24,6 @@ def run(ctx, R):
     try:
         from rules import v1model
         v1model.c05_v1(ctx, R)
+        v1model.v1_no_panic(ctx, R, 'C05.V1')
     except ImportError:
         R.assumptions.append('C05.V1 (v1 presence-before-validation, partial-keyword and open-token rules) not decided by this build')
